@@ -86,6 +86,13 @@ func genTrial(prop, variant string, seed uint64, i int) TrialCfg {
 		if r.Chance(1, 4) {
 			c.Churn = 200 + r.Intn(1500)
 		}
+		if prop != "C06" && r.Chance(1, 3) {
+			// expiry on top of the size bound: entries that expired but were not swept are written over,
+			// invalidated and conditionally set while the policy still tracks their nodes
+			c.ExpiryTTL = []int64{1000, 1_000_000, 500_000_000}[r.Intn(3)]
+			c.Mix[KAdvance] = 6
+			c.Churn = 0
+		}
 		c.Ops = 30 + r.Intn(120)
 	case "C14":
 		c.Exec = ExecDefault
